@@ -16,17 +16,22 @@ def builds_err(fn, bb):
     return False
 
 
-def refusal_edge(fn, start, targets):
+def refusal_edge(fn, start, targets, avoid=frozenset()):
     """start's reachable region avoids every target block and contains an Err/None return construction"""
-    reach = fn.reachable(start)
+    reach = fn.reachable(start, avoid=avoid)
     if reach & set(targets):
         return False
+    # re-entering a loop that contains the guard (`continue`) is not a refusal: the region must not flow back to
+    # any block that dominates the guard
+    for g in avoid:
+        if any(fn.dominates(b, g) for b in reach):
+            return False
     return any(builds_err(fn, b) for b in reach)
 
 
-def diverging_edge(fn, start, targets):
-    """weaker: region avoids targets (return of anything, continue, ...)"""
-    return not (fn.reachable(start) & set(targets))
+def diverging_edge(fn, start, targets, avoid=frozenset()):
+    """weaker: region avoids targets (return of anything, `continue`, ...) without re-entering the guard"""
+    return not (fn.reachable(start, avoid=avoid) & set(targets))
 
 
 def guards_of(fn, target_bb, require_err=True, env=None):
@@ -42,12 +47,13 @@ def guards_of(fn, target_bb, require_err=True, env=None):
         edges = dict(si[2])
         if si[0] != "bool":
             edges["<otherwise>"] = si[3]
-        passing = [(v, t) for v, t in edges.items() if target_bb in fn.reachable(t) or t == target_bb]
+        av = frozenset([sb])  # a loop's next iteration re-enters the guard: that is not "reaching the target past it"
+        passing = [(v, t) for v, t in edges.items() if target_bb in fn.reachable(t, avoid=av) or t == target_bb]
         failing = [(v, t) for v, t in edges.items() if (v, t) not in passing and fn.blocks[t]["t"][0] != "unreachable"]
         if len({t for v, t in passing}) != 1 or not failing:
             continue
         test = refusal_edge if require_err else diverging_edge
-        if not all(test(fn, t, [target_bb]) for v, t in failing):
+        if not all(test(fn, t, [target_bb], av) for v, t in failing):
             continue
         if si[0] == "bool":
             cond = k9.kexpr(fn, "c:" + si[1], env) if si[1] else "?"
